@@ -62,6 +62,14 @@ VALUES = [
     ("subq-ts", "(SELECT MAX(TS) FROM PRICES)", datetime.datetime(2024, 1, 2, 3, 4, 5)),
     ("subq-count", "(SELECT COUNT(*) FROM PRICES)", 2),
     ("subq-str", "(SELECT 'x''y')", "x'y"),
+    # the value of an expression over functions that fakesnow rewrites
+    ("expr-regexp-substr", "regexp_substr('year 2024', '[0-9]+')", "2024"),
+    ("expr-regexp-replace", "regexp_replace('a-b', '-', '+')", "a+b"),
+    ("expr-upper", "upper('abc')", "ABC"),
+    ("expr-trim", "trim('  x ')", "x"),
+    ("expr-dateadd", "dateadd(day, 1, '2020-01-01'::date)", datetime.date(2020, 1, 2)),
+    ("expr-to-decimal", "to_decimal('1.5', 10, 2)", decimal.Decimal("1.50")),
+    ("expr-json-path", "parse_json('{\"a\": 7}'):a::int", 7),
 ]
 
 POSITIONS = ["bare", "alias", "where", "subquery", "arith", "insert", "twice", "minus", "negate", "concat"]
@@ -123,7 +131,7 @@ def gen_cases(tier: str, seed: int):
             else:
                 steps.append(["undefined_between_bound_strings", conn, cur, r.choice(["nosuch", "zz9"]),
                               r.choice([["a'b", "c'd"], ["it's", "x'"], ["\\'", "q'q"], ["plain", "o'k"], ["a''b", "'"]])])
-        yield {"steps": steps}
+        yield {"steps": steps, "threaded": r.random() < 0.3}
 
 
 _state: dict[str, Any] = {}
@@ -182,6 +190,46 @@ def run_case(case: dict, env: core.Env) -> None:
             env.witness(f"C15/wedged/after-{after}/{vcls}", f"SELECT 1 after {after}: {o.get('exc') or o.get('rows')}")
             return True
         return False
+
+    threaded = bool(case.get("threaded"))
+
+    class _ThreadCursor:
+        """Every statement through a cursor made and used in a helper thread of its own (the connection owns the variables)."""
+
+        def __init__(self, conn: Any) -> None:
+            self._conn = conn
+            self._last: Any = None
+
+        def execute(self, sql: str, params: Any = None) -> Any:
+            import threading
+
+            box: list = []
+
+            def work() -> None:
+                try:
+                    k = self._conn.cursor()
+                    k.execute(sql, params) if params is not None else k.execute(sql)
+                    box.append(("ok", k))
+                except BaseException as e:  # noqa: BLE001
+                    box.append(("exc", e))
+
+            th = threading.Thread(target=work)
+            th.start()
+            th.join(60)
+            if not box:
+                raise core.Inconclusive("helper thread did not finish")
+            if box[0][0] == "exc":
+                raise box[0][1]
+            self._last = box[0][1]
+            return self._last
+
+        def __getattr__(self, name: str) -> Any:
+            return getattr(self._last if self._last is not None else self._conn.cursor(), name)
+
+    if threaded:
+        env.count("threaded_cases")
+        for ci_ in range(2):
+            curs[ci_][1] = _ThreadCursor(conns[ci_])
 
     for step in case["steps"]:
         kind, ci, ki = step[0], step[1], step[2]
